@@ -203,7 +203,8 @@ fn run_job(t: &mut Tally, job: &Job, d: usize) {
 							}
 						}
 					}
-					let (out, err) = reencode(&input, 4096, &[4096]);
+					for sizes in [&[4096usize][..], &[1], &[2], &[3], &[5, 1]] {
+					let (out, err) = reencode(&input, if sizes[0] == 4096 { 4096 } else { 3 }, sizes);
 					t.evaluations += 1;
 					let bad = if well_formed {
 						(err.is_some() || out != want.as_bytes()).then(|| format!("well-formed input gave err={err:?} out={}", show(&out)))
@@ -217,7 +218,8 @@ fn run_job(t: &mut Tally, job: &Job, d: usize) {
 						None
 					};
 					if let Some(msg) = bad {
-						t.bad(format!("utf16-ill-formed:{}", if *big_endian { "be" } else { "le" }), enc_case("ill16", &input, json!({})), format!("UTF-16{} units {:04X?}{}: {msg}", if *big_endian { "BE" } else { "LE" }, &units[1..], if trailing_byte { " + 1 byte" } else { "" }));
+						t.bad(format!("utf16-ill-formed:{}", if *big_endian { "be" } else { "le" }), enc_case("ill16", &input, json!({"sizes": sizes})), format!("UTF-16{} units {:04X?}{} (consumer reads {sizes:?}): {msg}", if *big_endian { "BE" } else { "LE" }, &units[1..], if trailing_byte { " + 1 byte" } else { "" }));
+					}
 					}
 				}
 			}
@@ -227,7 +229,8 @@ fn run_job(t: &mut Tally, job: &Job, d: usize) {
 			for v in *lo..*hi {
 				let mut input: Vec<u8> = if *big_endian { vec![0, 0, 0xFE, 0xFF, 0, 0, 0, 0x61] } else { vec![0xFF, 0xFE, 0, 0, 0x61, 0, 0, 0] };
 				input.extend(if *big_endian { v.to_be_bytes() } else { v.to_le_bytes() });
-				let (out, err) = reencode(&input, 4096, &[4096]);
+				for sizes in [&[4096usize][..], &[1], &[3]] {
+				let (out, err) = reencode(&input, 4096, sizes);
 				t.evaluations += 1;
 				let want: Option<String> = char::from_u32(v).map(|c| format!("a{c}"));
 				let bad = match &want {
@@ -243,7 +246,8 @@ fn run_job(t: &mut Tally, job: &Job, d: usize) {
 					}
 				};
 				if let Some(msg) = bad {
-					t.bad(format!("utf32-value:{}", if *big_endian { "be" } else { "le" }), enc_case("ill32", &input, json!({})), format!("UTF-32{} value 0x{v:X}: {msg}", if *big_endian { "BE" } else { "LE" }));
+					t.bad(format!("utf32-value:{}", if *big_endian { "be" } else { "le" }), enc_case("ill32", &input, json!({"sizes": sizes})), format!("UTF-32{} value 0x{v:X} (consumer reads {sizes:?}): {msg}", if *big_endian { "BE" } else { "LE" }));
+				}
 				}
 			}
 			// truncated code units and large values
@@ -462,7 +466,7 @@ pub fn run(ctx: &Ctx) -> CheckOutput {
 	CheckOutput {
 		level: "exploration",
 		tally,
-		rule: "re-encoder alone (hook yaml_reencode): (a) EVERY Unicode scalar value (1,112,064; blocks of 8192 after a leading 'a') in UTF-16LE/BE and UTF-32LE/BE with and without BOM must re-encode to exactly its UTF-8 for consumer read sizes {1,2,3,4,5,7,4095,4096,4097 and mixed patterns} and source BufRead chunk sizes {1,2,3,5,7,4096}; (b) all 256 four-character sequences over the UTF-8 length classes x all consumer read patterns of length <= 3 over {1,2,3,4,5,7,12} x source chunks {1,3,4096} x 8 encodings; (c) ill-formed input: all 65,536 first UTF-16 units x 11 continuations (both byte orders), every UTF-32 value 0..0x11FFFF and 2^j / 2^j-1 fragments: well-formed => exact UTF-8, ill-formed => an error and nothing fabricated before it (reference: std's char::decode_utf16 / char::from_u32); (d) Encoding::detect on every stream that starts with a BOM or with each of the 127 ASCII characters followed by 15 second characters, in 9 encodings. End to end: YAML texts (all small trees in 5 styles, string family, multi-document streams, all scalars, ASCII-only texts, characters across 8/16/24 KiB buffer edges) in 8 encodings x slice / reader (chunks all,1,3,7 and <= 1 deviation) x explicit / detected: verdict and output identical to the UTF-8 run.".into(),
+		rule: "re-encoder alone (hook yaml_reencode): (a) EVERY Unicode scalar value (1,112,064; blocks of 8192 after a leading 'a') in UTF-16LE/BE and UTF-32LE/BE with and without BOM must re-encode to exactly its UTF-8 for consumer read sizes {1,2,3,4,5,7,4095,4096,4097 and mixed patterns} and source BufRead chunk sizes {1,2,3,5,7,4096}; (b) all 256 four-character sequences over the UTF-8 length classes x all consumer read patterns of length <= 3 over {1,2,3,4,5,7,12} x source chunks {1,3,4096} x 8 encodings; (c) ill-formed input: all 65,536 first UTF-16 units x 11 continuations (both byte orders), every UTF-32 value 0..0x11FFFF and 2^j / 2^j-1 fragments: well-formed => exact UTF-8, ill-formed => an error and nothing fabricated before it, for consumer read sizes {4096, 1, 2, 3, mixed} (reference: std's char::decode_utf16 / char::from_u32); (d) Encoding::detect on every stream that starts with a BOM or with each of the 127 ASCII characters followed by 15 second characters, in 9 encodings. End to end: YAML texts (all small trees in 5 styles, string family, multi-document streams, all scalars, ASCII-only texts, characters across 8/16/24 KiB buffer edges) in 8 encodings x slice / reader (chunks all,1,3,7 and <= 1 deviation) x explicit / detected: verdict and output identical to the UTF-8 run.".into(),
 		exhaustive: true,
 		bounds: json!({"deviations": d}),
 		assumptions: vec!["std's UTF-16/UTF-32 decoding (char::decode_utf16, char::from_u32) is the reference for well-formedness".into()],
